@@ -45,6 +45,8 @@ pub struct GenOpts {
     pub max: f64,
     /// allow electricity as cogeneration input (nonsensical physically; excluded from perimeter checks)
     pub el_cogen_input: bool,
+    /// allow the two on-site carriers (ambient heat, solar thermal) as cogeneration input
+    pub onsite_cogen_fuel: bool,
     pub meta: bool,
 }
 
@@ -67,6 +69,7 @@ impl Default for GenOpts {
             vmul: 1,
             max: 400.0,
             el_cogen_input: false,
+            onsite_cogen_fuel: true,
             meta: false,
         }
     }
@@ -571,7 +574,13 @@ pub fn building(r: &mut Rng, o: &GenOpts) -> Spec {
                 _ => 3,
             };
             for k in 0..nf {
-                let fuel = if o.el_cogen_input && g.r.chance(1, 10) { "ELECTRICIDAD" } else { *g.r.pick(&FUELS) };
+                let fuel = if o.el_cogen_input && g.r.chance(1, 10) {
+                    "ELECTRICIDAD"
+                } else if o.onsite_cogen_fuel && g.r.chance(1, 4) {
+                    *g.r.pick(&ONSITE)
+                } else {
+                    *g.r.pick(&FUELS)
+                };
                 let u: Vec<i64> = if g.r.chance(2, 3) {
                     chp.iter().map(|x| if *x > 0 { g.qr(*x, 1.0, 3.0).max(g.vmul) } else if g.r.chance(1, 5) { g.amount(0.2) } else { 0 }).collect()
                 } else {
